@@ -32,6 +32,8 @@ var govcTotalDocs = []string{
 	`<blockquote><pre>` + govcWords + `</pre></blockquote>`,
 	// pagers whose URLs change length under case folding (U+0130), with next/prev vocabulary
 	`<html><head><title>İstanbul</title></head><body><h1>İstanbul</h1><div class="article"><p>` + govcWords + `</p></div><div class="pager"><a href="/wiki/İstanbul/2">2</a> <a href="/wiki/İstanbul/2" class="next">next page</a> <a href="http://example.com/wiki/İstanbul" class="prev">previous page</a> <a href="http://example.com/wiki/İstanbul/3" class="next">next page</a></div></body></html>`,
+	// a figure whose caption is not rendered at all
+	`<html><body><article><p>` + govcWords + `</p><figure><img src="a.png" width="600" height="400"><figcaption style="display:none">hidden <a href="/c">link</a></figcaption></figure><figure><img src="b.png" width="600" height="400"><figcaption hidden>x</figcaption></figure><p>` + govcWords + `</p></article></body></html>`,
 	// pretty-printed numeric pager: white-space-only text nodes between the list items and links
 	"<html><body><p>" + govcWords + "</p><ul class=\"pager\">\n  <li>\n    <a href=\"/article/istanbul?page=1\">1</a>\n  </li>\n  <li>\n    <a href=\"/article/istanbul?page=2\">2</a>\n  </li>\n  <li>\n    <a href=\"/article/istanbul?page=3\">3</a>\n  </li>\n</ul></body></html>",
 }
@@ -64,7 +66,7 @@ func govcCheckTotal(t *testing.T, what string, f func() (*Result, error)) {
 
 func TestGovcTotalityReplay(t *testing.T) {
 	defer func() {
-		fmt.Printf("GOVC-CASES evaluations=%d distinct_nontrivial=%d rule=%s\n", govcTotalEvals, govcTotalNontrivial, "16 documents (fragments, odd roots, hostile and pretty-printed pagers) x 8 page URLs x 2 algorithms x {ApplyForReader, every sub-element and detached clone as root, children of the document node, nil options} + hand-built nodes; non-trivial = a result (not an error) was returned")
+		fmt.Printf("GOVC-CASES evaluations=%d distinct_nontrivial=%d rule=%s\n", govcTotalEvals, govcTotalNontrivial, "17 documents (fragments, odd roots, hostile and pretty-printed pagers, hidden captions) x 8 page URLs x 2 algorithms x {ApplyForReader, every sub-element and detached clone as root, children of the document node, nil options} + hand-built nodes; non-trivial = a result (not an error) was returned")
 		fmt.Printf("GOVC-SAMPLE Apply on every element of %q as root\n", govcTotalDocs[1])
 	}()
 	for di, src := range govcTotalDocs {
